@@ -17,7 +17,10 @@ import (
 // Oracle: when everything has returned, every child has seen exactly as many Flush / ReportCounter calls as were
 // made on the multi reporter, with the reported values as a multiset.
 
-func init() { register("c19conc", "C19", "", suiteC19Conc) }
+func init() {
+	register("c19conc", "C19", "", suiteC19Conc)
+	register("c19fault", "C19", "", suiteC19Fault)
+}
 
 type c19cChild struct {
 	flushes, counts int64
@@ -336,13 +339,18 @@ func runC19AllocPanic(c *Ctx, kind int) {
 	c.Cov.Eval(line, true)
 }
 
-func suiteC19Conc(c *Ctx) {
+// c19fault -- A PROBE, NOT PART OF ANY CHECK: a child that PANICS inside an allocation is not among the call histories
+// C19 quantifies over (see DESIGN.md 10.6); kept for reference.
+func suiteC19Fault(c *Ctx) {
 	for k := 0; k < 4; k++ {
 		runC19AllocPanic(c, k)
 	}
+}
+
+func suiteC19Conc(c *Ctx) {
 	runC19Caps(c, false)
 	runC19Caps(c, true)
-	c.Cov.Rule = "overlapping calls on a multi reporter (plain and cached, 1-4 counting children): the first Flush / report blocks inside child 0 while 1-3 further Flush and 0-3 report calls are issued from other goroutines, then it is released; oracle: every child has seen exactly as many Flush and counter calls, with the same values, as were made on the multi reporter; plus a fault: a child panicking once inside each kind of allocation, recovered by the caller, after which further allocations and a report must reach every child; plus, per flavour, one scripted case: an answer of Capabilities() obtained earlier is read again while another caller is held inside a child's Capabilities() and must not have changed; every case nontrivial; distinct by configuration"
+	c.Cov.Rule = "overlapping calls on a multi reporter (plain and cached, 1-4 counting children): the first Flush / report blocks inside child 0 while 1-3 further Flush and 0-3 report calls are issued from other goroutines, then it is released; oracle: every child has seen exactly as many Flush and counter calls, with the same values, as were made on the multi reporter; plus, per flavour, one scripted case: an answer of Capabilities() obtained earlier is read again while another caller is held inside a child's Capabilities() and must not have changed; every case nontrivial; distinct by configuration"
 	n := c.N(60, 600)
 	for i := 0; i < n; i++ {
 		runC19Conc(c, c.Rng.Fork())
